@@ -27,8 +27,14 @@ def schema_projection(cat):
     for i in cat["interactions"]:
         for r in i.get("request") or []:
             res[i["id"] + " request"] = kids(r["schema"])
+            for h in r.get("headers") or []:
+                res[i["id"] + " request headers"] = kids(h)
         for k, r in enumerate(i.get("responses") or []):
             res[i["id"] + " response %d" % k] = kids(r["schema"])
+            for h in r.get("headers") or []:
+                res[i["id"] + " response %d headers" % k] = kids(h)
+        for q in i.get("query") or []:
+            res[i["id"] + " query"] = kids(q["schema"])
         for k in ("params", "result"):
             for sv in i.get(k) or []:
                 res[i["id"] + " " + k] = kids(sv)
